@@ -46,7 +46,7 @@ def _ren_rv(r, lb, pb):
     r = dict(r)
     if "pl" in r:
         r["pl"] = _ren_place(r["pl"], lb)
-    if r["rv"] in ("use", "repeat", "cast"):
+    if r["rv"] in ("use", "repeat", "cast", "tyid"):
         r["op"] = _ren_op(r["op"], lb, pb)
     elif r["rv"] in ("binop", "unop"):
         # NB: for binop/unop "op" is the operator name (a string)
@@ -130,7 +130,7 @@ class Inliner:
             return "depth"
         if self.stop and self.stop(d):
             return "stop"
-        if not g.rec.get("local") and not (self.extern_ok and self.extern_ok(d)):
+        if not g.rec.get("local") and not g.rec.get("synthetic") and not (self.extern_ok and self.extern_ok(d)):
             return "extern"
         if "{closure#" in d and not self.closures:
             return "closure"
@@ -155,12 +155,209 @@ class Inliner:
                     return None, None
             # the instance has no resolved edge here (virtual, fn pointer, intrinsic): leave as a call
             return None, None
+        if t.get("syn_to") is not None:
+            ci = self.facts.instances[t["syn_to"]]
+            return ci["def"], ci
         d = t.get("res") or t.get("callee")
         if d and (t.get("res_kind") in (None, "item")):
             return d, None
         return None, None
 
-    def splice(self, d, inst, depth, stack, unwind_to, site_stack=()):
+    # ---- iterator consumers as loops -----------------------------------------------------------------------------------------
+    # `it.try_fold(init, f)`, `it.fold(init, f)`, `it.for_each(f)` and `it.try_for_each(f)` with a closure (or function) of the crate are the
+    # loop `let mut acc = init; while let Some(x) = it.next() { acc = f(acc, x)<?> } acc` by definition of these methods; std's own bodies
+    # (specialised per adaptor, written with raw pointers) are not what a rule wants to read.  The loop is built as a body of its own and
+    # spliced in like any helper, so that a `for` loop turned into a combinator reads the same to every rule.
+    LOOPS = {"try_fold": 3, "fold": 3, "for_each": 2, "try_for_each": 2}
+
+    def synth_dispatch(self, d_caller, inst, raw, t):
+        """a call through a trait object of a trait of this crate (`self.socket().peer()` with `socket() -> &dyn StreamSocket`), read as what it
+        is: a choice, by the concrete type behind the reference, among the implementations the crate has.  Built as a body of its own:
+        a switch on the type of the receiver (decided on a path when the receiver is known to point into a value of a concrete type, taken
+        every way otherwise), one arm per implementation, and the original virtual call as the last arm."""
+        facts = self.facts
+        m = re.match(r"^dyn ([\w:]+)", t.get("self_ty") or "")
+        if t.get("res_kind") != "virtual" or not m or not t["args"]:
+            return None
+        tr = m.group(1)
+        impls = {}
+        for k, g in facts.fns.items():
+            mm = re.match(r"^<(.+) as %s>::(\w+)$" % re.escape(tr), k)
+            if mm and g.rec.get("local"):
+                impls.setdefault(mm.group(1), {})[mm.group(2)] = k
+        if not impls:
+            return None
+        types = sorted(impls)
+        name, trait = t.get("name"), t.get("trait")
+        own = trait == tr
+        if own and any(name not in impls[T] for T in types):
+            return None
+        line = t.get("line", 0)
+        argc = len(t["args"])
+        arg_tys = t.get("arg_tys") or ["?"] * argc
+        dl = t["dest"]["l"]
+        rty = raw["locals"][dl]["ty"] if not t["dest"]["p"] and dl < len(raw["locals"]) else "?"
+        L = lambda ty, nm=None: {"ty": ty, "adt": None, "name": nm, "mut": True}
+        locs = [L(rty)] + [L(a) for a in arg_tys] + [L("isize")]
+        D = argc + 1
+        pl = lambda l, *proj: {"l": l, "p": list(proj)}
+        mv = lambda l: {"k": "move", "pl": pl(l)}
+        blocks = []
+        def blk(stmts, term):
+            blocks.append({"cleanup": False, "stmts": stmts, "term": dict(term, line=line, exp=False)})
+            return len(blocks) - 1
+        n = len(types)
+        RET, FALL = n + 2, n + 1
+        blk([{"s": "assign", "line": line, "exp": False, "lhs": pl(D), "rhs": {"rv": "tyid", "op": {"k": "copy", "pl": pl(1)}, "types": types}, "syn": True}],
+            {"t": "switch", "discr": mv(D), "dty": "isize", "targets": [[k, 1 + k] for k in range(n)], "otherwise": FALL})
+        for k, T in enumerate(types):
+            if own:
+                cdef = impls[T][name]
+                c = [x for x in facts.instances_of(cdef) if x["kind"] == "item"]
+                call = {"t": "call", "callee": cdef, "callee_krate": "tiny_http", "gargs": [], "name": name, "res": cdef, "res_krate": "tiny_http", "res_kind": "item", "res_name": cdef}
+                if len(c) == 1:
+                    call["syn_to"] = c[0]["id"]
+            else:
+                cdef = "<%s as %s>::%s" % (T, trait, name)
+                call = {"t": "call", "callee": t.get("callee"), "callee_krate": t.get("callee_krate"), "gargs": [T], "trait": trait, "self_ty": T, "name": name,
+                        "res": cdef, "res_krate": t.get("callee_krate"), "res_kind": "item", "res_name": cdef}
+            recv_ty = re.sub(r"dyn [\w:]+( \+ [\w:']+)*", T, arg_tys[0]) if arg_tys else "?"
+            call.update(args=[mv(i) for i in range(1, argc + 1)], arg_tys=[recv_ty] + list(arg_tys[1:]), dest=pl(0), target=RET, unwind="continue", fn_exp=False, syn=True)
+            blk([], call)
+        orig = dict(t)
+        orig.update(args=[mv(i) for i in range(1, argc + 1)], dest=pl(0), target=RET, unwind="continue", syn=True)
+        blk([], orig)
+        blk([], {"t": "return"})
+        self.nsyn = getattr(self, "nsyn", 0) + 1
+        sid = "<dispatch of %s>::%s#%d" % (tr, name, self.nsyn)
+        mir = {"blocks": blocks, "locals": locs, "argc": argc, "file": raw["file"], "line": line}
+        rec = {"id": sid, "local": False, "synthetic": True, "def_kind": "Fn", "promoted": [], "mir": mir, "vis_pub": False}
+        facts.fns[sid] = Fn(facts, rec)
+        return sid
+
+    def synthesize(self, d_caller, inst, raw, t):
+        facts = self.facts
+        name = t.get("name")
+        if t.get("res_kind") == "virtual":
+            return self.synth_dispatch(d_caller, inst, raw, t)
+        if t.get("trait") != "std::iter::Iterator" or name not in self.LOOPS or len(t["args"]) != self.LOOPS[name]:
+            return None
+        fop = t["args"][-1]
+        # the function: a closure built in the caller, or a function item
+        fdef = None
+        if fop.get("k") == "const" and fop.get("fn"):
+            fdef = fop["fn"]
+        elif fop.get("k") in ("copy", "move") and not fop["pl"]["p"]:
+            defs = [s_["rhs"] for b in raw["blocks"] for s_ in b["stmts"] if s_["s"] == "assign" and s_["lhs"] == {"l": fop["pl"]["l"], "p": []}]
+            if len(defs) == 1 and defs[0]["rv"] == "agg" and defs[0].get("closure"):
+                fdef = defs[0]["closure"]
+        if fdef is None or fdef not in facts.fns or not facts.fns[fdef].rec.get("local"):
+            return None
+        is_closure = "{closure#" in fdef
+        finst = None
+        if inst is not None and is_closure and fdef.startswith(d_caller + "::"):
+            want = inst["name"] + fdef[len(d_caller):]
+            c = [x for x in facts.instances_of(fdef) if x.get("name") == want]
+            finst = c[0]["id"] if len(c) == 1 else None
+        if finst is None:
+            c = [x for x in facts.instances_of(fdef) if x["kind"] == "item"]
+            finst = c[0]["id"] if len(c) == 1 else None
+        gargs = t.get("gargs") or []
+        self_ty = t.get("self_ty") or (gargs[0] if gargs else "?")
+        by_ref = name == "try_fold"
+        has_acc = name in ("try_fold", "fold")
+        is_try = name in ("try_fold", "try_for_each")
+        acc_ty = gargs[1] if has_acc and len(gargs) > 1 else "()"
+        f_ty = gargs[2] if has_acc and len(gargs) > 2 else (gargs[1] if len(gargs) > 1 else "?")
+        r_ty = (gargs[3] if name == "try_fold" and len(gargs) > 3 else (gargs[2] if name == "try_for_each" and len(gargs) > 2 else (acc_ty if has_acc else "()")))
+        if is_try:
+            if r_ty.startswith("std::result::Result<"):
+                radt, cont, brk = "std::result::Result", (0, "Ok"), (1, "Err")
+            elif r_ty.startswith("std::option::Option<"):
+                radt, cont, brk = "std::option::Option", (1, "Some"), (0, "None")
+            elif r_ty.startswith("std::ops::ControlFlow<"):
+                radt, cont, brk = "std::ops::ControlFlow", (0, "Continue"), (1, "Break")
+            else:
+                return None
+        line = t.get("line", 0)
+        L = lambda ty, nm=None: {"ty": ty, "adt": None, "name": nm, "mut": True}
+        argc = self.LOOPS[name]
+        locs = [L(r_ty), L(("&mut " if by_ref else "") + self_ty, "iter")]
+        if has_acc:
+            locs.append(L(acc_ty, "init"))
+        locs.append(L(f_ty, "f"))
+        F = argc                                  # the function's local
+        INIT = 2 if has_acc else None
+        base = len(locs)
+        OPT, RES, ACC, TUP, FREF, IREF, D1, D2 = range(base, base + 8)
+        locs += [L("std::option::Option<?>", "item"), L(r_ty if is_try else acc_ty), L(acc_ty, "acc"), L("(?, ?)"), L("&mut " + f_ty), L("&mut " + self_ty), L("isize"), L("isize")]
+        pl = lambda l, *proj: {"l": l, "p": list(proj)}
+        mv = lambda l, *proj: {"k": "move", "pl": pl(l, *proj)}
+        cp = lambda l, *proj: {"k": "copy", "pl": pl(l, *proj)}
+        fld = lambda k: {"f": k, "n": str(k), "ty": "?"}
+        asg = lambda lhs, rhs: {"s": "assign", "line": line, "exp": False, "lhs": lhs, "rhs": rhs, "syn": True}
+        use = lambda op: {"rv": "use", "op": op}
+        unit = {"k": "const", "ty": "()", "v": "()"}
+        blocks = []
+        def blk(stmts, term):
+            blocks.append({"cleanup": False, "stmts": stmts, "term": dict(term, line=line, exp=False)})
+            return len(blocks) - 1
+        # bb0: acc = init
+        blk([asg(pl(ACC), use(mv(INIT)))] if has_acc else [], {"t": "goto", "target": 1})
+        # bb1: item = iter.next()
+        nres = "<%s as std::iter::Iterator>::next" % self_ty
+        res = t.get("res") or ""
+        gen = re.sub(r"::%s$" % name, "::next", res) if res.startswith("<") and res.endswith("::" + name) else nres
+        pre = [] if by_ref else [asg(pl(IREF), {"rv": "ref", "mut": True, "pl": pl(1)})]
+        blk(pre, {"t": "call", "callee": "std::iter::Iterator::next", "callee_krate": "core", "gargs": [self_ty], "trait": "std::iter::Iterator", "self_ty": self_ty,
+                  "self_adt": t.get("self_adt"), "name": "next", "res": gen, "res_krate": "core", "res_kind": "item", "res_name": nres,
+                  "args": [cp(1) if by_ref else mv(IREF)], "arg_tys": ["&mut " + self_ty], "dest": pl(OPT), "target": 2, "unwind": "continue", "fn_exp": False, "syn": True})
+        # bb2: match item
+        blk([asg(pl(D1), {"rv": "discr", "pl": pl(OPT), "ty": "std::option::Option<?>", "adt": "std::option::Option", "variants": [[0, "None"], [1, "Some"]]})],
+            {"t": "switch", "discr": mv(D1), "dty": "isize", "targets": [[0, 7], [1, 3]], "otherwise": 9})
+        # bb3: r = f(acc, x)
+        ops = ([mv(ACC)] if has_acc else []) + [mv(OPT, {"d": "Some"}, fld(0))]
+        call = {"t": "call", "callee": "std::ops::FnMut::call_mut", "callee_krate": "core", "gargs": [f_ty], "trait": "std::ops::FnMut", "self_ty": f_ty, "name": "call_mut",
+                "res": fdef, "res_krate": "tiny_http", "res_kind": "item", "res_name": fdef, "dest": pl(RES), "target": 4, "unwind": "continue", "fn_exp": False, "syn": True}
+        if is_closure:
+            stm = [asg(pl(TUP), {"rv": "agg", "agg": "tuple", "ops": ops}), asg(pl(FREF), {"rv": "ref", "mut": True, "pl": pl(F)})]
+            call.update(args=[mv(FREF), mv(TUP)], arg_tys=["&mut " + f_ty, "(?, ?)"])
+        else:
+            stm = []
+            call.update(args=ops, arg_tys=["?"] * len(ops), callee=fdef, name=fdef.rsplit("::", 1)[-1])
+            call.pop("trait")
+        if finst is not None:
+            call["syn_to"] = finst
+        blk(stm, call)
+        # bb4: what the function answered
+        if is_try:
+            blk([asg(pl(D2), {"rv": "discr", "pl": pl(RES), "ty": r_ty, "adt": radt, "variants": sorted([list(cont), list(brk)])})],
+                {"t": "switch", "discr": mv(D2), "dty": "isize", "targets": [[cont[0], 5], [brk[0], 6]], "otherwise": 9})
+        else:
+            blk([], {"t": "goto", "target": 5})
+        # bb5: go on
+        if has_acc:
+            blk([asg(pl(ACC), use(mv(RES, {"d": cont[1]}, fld(0)) if is_try else mv(RES)))], {"t": "goto", "target": 1})
+        else:
+            blk([], {"t": "goto", "target": 1})
+        # bb6: the function asked to stop: its answer is the result
+        blk([asg(pl(0), use(mv(RES)))], {"t": "goto", "target": 8})
+        # bb7: the iterator is exhausted
+        if is_try:
+            payload = mv(ACC) if has_acc else unit
+            blk([asg(pl(0), {"rv": "agg", "agg": "adt", "adt": radt, "variant": cont[1], "fields": ["0"], "ops": [payload]})], {"t": "goto", "target": 8})
+        else:
+            blk([asg(pl(0), use(mv(ACC) if has_acc else unit))], {"t": "goto", "target": 8})
+        blk([], {"t": "return"})                                   # bb8
+        blk([], {"t": "unreachable"})                              # bb9
+        self.nsyn = getattr(self, "nsyn", 0) + 1
+        sid = "<loop of %s>::%s#%d" % (d_caller, name, self.nsyn)
+        mir = {"blocks": blocks, "locals": locs, "argc": argc, "file": raw["file"], "line": line}
+        rec = {"id": sid, "local": False, "synthetic": True, "def_kind": "Fn", "promoted": [], "mir": mir, "vis_pub": False}
+        facts.fns[sid] = Fn(facts, rec)
+        return sid
+
+    def splice(self, d, inst, depth, stack, unwind_to, site_stack=(), eff_site=None):
         g = self.facts.fns[d]
         raw = g.mir
         rblocks = raw["blocks"]
@@ -176,6 +373,9 @@ class Inliner:
         for i, b in enumerate(rblocks):
             nb = {"cleanup": b["cleanup"], "stmts": [_ren_stmt(s, lb, pb) for s in b["stmts"]],
                   "term": _ren_term(b["term"], lb, bb0, pb, unwind_to), "src": d, "inst": iid, "obb": i, "file": raw["file"], "depth": depth, "sites": site_stack}
+            if iid is None and eff_site is not None:
+                # a block of a body built here (or resolved below one): the call graph knows it only as part of the call it stands for
+                nb["eff_site"] = eff_site
             self.blocks.append(nb)
         self.inlined.append((depth, d))
         for i, b in enumerate(rblocks):
@@ -185,12 +385,21 @@ class Inliner:
             self.shim_mode = None
             cd, ci = self.resolve(inst, i, t)
             shim_mode = self.shim_mode
+            if cd is None and t.get("res_kind") == "virtual" and self.extern_ok is not None and not t.get("syn"):
+                cd = "<virtual>"
             if cd is None:
                 continue
             if shim_mode is None and ci is not None and (t.get("res") != cd):
                 # a call the generic body could not name (through a type parameter): record what it is for this instantiation
                 nb0 = self.blocks[bb0 + i]
                 nb0["term"] = dict(nb0["term"], res=cd, res_name=ci.get("name"))
+            syn = self.synthesize(d, inst, raw, t) if shim_mode is None and (self.extern_ok is not None) else None
+            sub_eff = eff_site if inst is None else None
+            if syn is not None:
+                cd, ci = syn, None
+                sub_eff = (inst["id"], i) if inst is not None else eff_site
+            if cd == "<virtual>":
+                continue
             why = self.may_inline(cd, depth + 1, stack + [d])
             if why:
                 if why != "no MIR":
@@ -243,7 +452,7 @@ class Inliner:
                 self.skipped[cd] = "argument count mismatch"
                 continue
             uw = nt["unwind"] if isinstance(nt.get("unwind"), int) else None
-            cbb0, clb = self.splice(cd, ci, depth + 1, stack + [d], uw, tuple(site_stack) + ((d, i),))
+            cbb0, clb = self.splice(cd, ci, depth + 1, stack + [d], uw, tuple(site_stack) + ((d, i),), eff_site=sub_eff if ci is None else None)
             assert clb == clb_next
             nb["stmts"] = nb["stmts"] + pre
             nb["inl_call"] = nt
